@@ -87,12 +87,14 @@ mod verif_cex_history {
 
     fn run_seed(seed: u64) -> Result<(), String> { run_seed_with(seed, 1024, 32, false) }
     // the same seeded history under given open options (C16: options change performance, not behaviour)
+    // the map-populate option for run_seed_with (the oracle runs its tests on one thread)
+    static POPULATE: std::sync::atomic::AtomicBool = std::sync::atomic::AtomicBool::new(false);
     fn run_seed_with(seed: u64, ps: u64, np: u64, strict: bool) -> Result<(), String> {
         let p = std::env::temp_dir().join(format!("jammdb-cex-history-{}-{}-{}-{}-{}.db", seed, ps, np, strict, std::process::id()));
         let _ = std::fs::remove_file(&p);
         let res = (|| {
             let mut r = Rng(seed.wrapping_mul(0x9E3779B97F4A7C15) ^ 0xD1B54A32D192ED03);
-            let opts = || OpenOptions::new().pagesize(ps).num_pages(np as usize).strict_mode(strict);
+            let opts = || OpenOptions::new().pagesize(ps).num_pages(np as usize).strict_mode(strict).mmap_populate(POPULATE.load(std::sync::atomic::Ordering::SeqCst));
             let mut db = opts().open(&p).map_err(|e| format!("open: {:?}", e))?;
             let mut committed = MB::default();
             let mut log: Vec<String> = Vec::new();
@@ -650,19 +652,25 @@ mod verif_cex_history {
     #[test]
     fn cex_history_options() {
         // C16: the same seeded histories must behave like the reference map under every accepted combination of options
-        for ps in [1024u64, 1032, 3000, 4096, 16384] {
-            for np in [4u64, 64] {
-                for strict in [false, true] {
-                    for seed in 0..3u64 {
-                        match std::panic::catch_unwind(|| run_seed_with(seed, ps, np, strict)) {
-                            Ok(Ok(())) => {}
-                            Ok(Err(e)) => { println!("CEX history under options (C16): page size {}, initial pages {}, strict mode {}: {}", ps, np, strict, e); panic!("options mismatch"); }
-                            Err(_) => { println!("CEX history under options (C16): page size {}, initial pages {}, strict mode {}: seed {} panicked", ps, np, strict, seed); panic!("options panic"); }
+        for populate in [false, true] {
+            POPULATE.store(populate, std::sync::atomic::Ordering::SeqCst);
+            for ps in [1024u64, 1032, 3000, 4096, 16384] {
+                for np in [4u64, 64] {
+                    // map-populate: the regimes in which the file is extended early and later commits allocate from the reserved tail
+                    if populate && !(np == 4 && (ps == 1024 || ps == 4096)) { continue; }
+                    for strict in [false, true] {
+                        for seed in 0..3u64 {
+                            match std::panic::catch_unwind(|| run_seed_with(seed, ps, np, strict)) {
+                                Ok(Ok(())) => {}
+                                Ok(Err(e)) => { POPULATE.store(false, std::sync::atomic::Ordering::SeqCst); println!("CEX history under options (C16): page size {}, initial pages {}, strict mode {}, map-populate {}: {}", ps, np, strict, populate, e); panic!("options mismatch"); }
+                                Err(_) => { POPULATE.store(false, std::sync::atomic::Ordering::SeqCst); println!("CEX history under options (C16): page size {}, initial pages {}, strict mode {}, map-populate {}: seed {} panicked", ps, np, strict, populate, seed); panic!("options panic"); }
+                            }
                         }
                     }
                 }
             }
         }
+        POPULATE.store(false, std::sync::atomic::Ordering::SeqCst);
     }
 
     #[test]
